@@ -22,7 +22,13 @@ Inductive sres :=
    3  mutual dial: B = (i_addr, ...) dials A = (r_addr, ...); B is held between the last
       message of its outbound handshake and its addPeer; A's handler registers B; A's Connect(B)
       returns through the shortcut ([connect_ok], [ret_*] describe THIS connect); A opens the
-      streams, which B answers ([outcomes]: the identity B's handler saw); then B goes on *)
+      streams, which B answers ([outcomes]: the identity B's handler saw); then B goes on
+   4  cross dial: both nodes call Connect towards each other at the same time (two handshakes in
+      opposite directions); one case per direction: the i_ fields describe the node that opened the streams, the r_
+      fields the node that answered.
+      There is no model of two simultaneous opposite handshakes; the case is compared with the
+      one-directional model's final outcome only (every schedule of it ends handled) and judged
+      by the property checker *)
 Record case := {
   id : N;
   klass : N;
@@ -36,7 +42,11 @@ Record case := {
                                 did not know the (provider) responder, so it gave up after reading the
                                 responder's request and the responder's final read failed; 2 accepted
                                 -- the node then reconnected with the same key, and the old connection
-                                was closed (its registry entry removed) while the responder was held *)
+                                was closed (its registry entry removed) while the responder was held;
+                                3 as 2, but the old connection was closed only after the responder had
+                                finished the new handshake (the registry then keeps its entry through the
+                                new connection -- connection bookkeeping is not in this model, which is
+                                evaluated as for 2) *)
   prior_ok : bool;           (* observation: that earlier Connect reported success *)
   conn_close_other : bool;   (* class 0: while the responder was held, another connection made
                                 under the initiator's peer id was closed at the responder *)
@@ -152,7 +162,15 @@ Definition m_early_agrees (c : case) : bool :=
   existsb (fun sched => N.of_nat (length (filter finished (bw (mrun ob_deployed (cfg_of c) sched)))) =? early c)
           [msched_held n; msched_held n ++ m_rests n].
 
+Definition explains_outcome_only (c : case) (sched : list who) : bool :=
+  let w := run deployed (cfg_of c) sched in
+  ret_agrees w c && all2 sres_agrees (wr w) (outcomes c).
+
 Definition agrees (c : case) : bool :=
+  if klass c =? 4 then
+    let n := N.to_nat (nstreams c) in
+    existsb (explains_outcome_only c) [sched_open_before_release n; sched_open_after_release n]
+  else
   if klass c =? 3 then
     existsb (m_explains c) (m_candidates c) && m_early_agrees c && negb (reg_at_gate c) &&
     (prior c =? 0) && negb (prior_ok c)
